@@ -455,20 +455,20 @@ def _shape_rules(ctx: Ctx, rs: RuleSet):
   ok = False
   if loop is not None and isinstance(loop.target, ast.Tuple):
     child = unparse(loop.target.elts[1])
-    # the recursive result for the child ...
-    ser = {t.id for st in ast.walk(loop) if isinstance(st, ast.Assign) and
-           isinstance(st.value, ast.Call) and unparse(st.value.func).endswith(
-               '._serialize') and st.value.args and unparse(
-                   st.value.args[0]) == child
-           for t in st.targets if isinstance(t, ast.Name)}
-    # ... is the second slot of the appended item
+    # the recursive result for the child (possibly held in a local) is the
+    # second slot of the appended item (itself possibly held in a local)
+    def is_child_result(e):
+      e = roles.deref(f, e)
+      return isinstance(e, ast.Call) and unparse(e.func).endswith(
+          '._serialize') and bool(e.args) and unparse(e.args[0]) == child
+
     for st in ast.walk(loop):
       if isinstance(st, ast.Call) and isinstance(
           st.func, ast.Attribute) and st.func.attr == 'append' and st.args:
-        for e in roles.expand(f, st.args[0], 2):
-          if isinstance(e, ast.Tuple) and len(e.elts) == 2 and unparse(
-              e.elts[1]) in ser:
-            ok = True
+        item = roles.deref(f, st.args[0])
+        if isinstance(item, ast.Tuple) and len(item.elts) == 2 and (
+            is_child_result(item.elts[1])):
+          ok = True
   rs.check(ok and zip_ok, rule, f'{f.qualname}:items',
            'serialized_item = (repr(path_element), serialized child) over '
            'zip(path_elements, values)', ctx.loc(f, f.node))
@@ -486,17 +486,20 @@ def _shape_rules(ctx: Ctx, rs: RuleSet):
            ctx.loc(d, d.node))
   # unflatten(values, metadata) in that order
   # values = [second slot of each item], metadata = deserialized metadata
-  vals_d = {t.id for st in walk_function(d.node) if isinstance(st, ast.Assign)
-            and isinstance(st.value, ast.ListComp) and isinstance(
-                st.value.generators[0].target, ast.Tuple)
-            for t in st.targets if isinstance(t, ast.Name)}
-  meta_d = roles.assigned_from(
-      d, lambda e: roles.call_of('_deserialize')(e) and e.args and
-      '_METADATA_KEY' in unparse(e.args[0]))
+  def is_values(e):
+    e = roles.deref(d, e)
+    return isinstance(e, ast.ListComp) and isinstance(
+        e.generators[0].target, ast.Tuple)
+
+  def is_metadata(e):
+    e = roles.deref(d, e)
+    return roles.call_of('_deserialize')(e) and bool(e.args) and (
+        '_METADATA_KEY' in unparse(e.args[0]))
+
   ok = any(isinstance(n, ast.Return) and isinstance(n.value, ast.Call) and
            unparse(n.value.func).endswith('unflatten') and
-           len(n.value.args) == 2 and unparse(n.value.args[0]) in vals_d and
-           unparse(n.value.args[1]) in meta_d
+           len(n.value.args) == 2 and is_values(n.value.args[0]) and
+           is_metadata(n.value.args[1])
            for n in walk_function(d.node))
   rs.check(ok, rule, f'{d.qualname}:unflatten',
            'the node is rebuilt with traverser.unflatten(values, metadata)',
